@@ -186,6 +186,7 @@ def run(ctx):
     ctx.rule("R17.8", "plumbing: per emission mode, what is produced is what the command receives - Environment: the summary's variables are chained into the "
                       "environment that is applied with command.env for every variable; File / JsonFile: the written file's path as WATCHEXEC_EVENTS_FILE; "
                       "Stdio / JsonStdio: that file opened as the command's stdin; None: nothing")
+    ctx.also("R17.8", 'emits_to_json_file writes each non-empty event as to_vec(event) followed by a newline; a serialisation failure leaves the function')
     ctx.rule("R17.4", "the line format writes one line per (event, path, kind) in nested loop order events > paths > kinds, and a "
                       "pathed event without kind yields exactly one `other:` line per path")
 
